@@ -729,7 +729,7 @@ pub fn show_bytes(bytes: &[u8]) -> String {
 /// the script so far).
 pub fn iter_protocol<T, I>(mut it: I, want: &[T], rng: &mut Rng, max_calls: usize) -> Result<u64, String>
 where
-    T: PartialEq + std::fmt::Debug + Clone,
+    T: PartialEq + std::fmt::Debug + Clone + Ord,
     I: Iterator<Item = T>,
 {
     let mut model = want.iter().cloned();
@@ -756,7 +756,43 @@ where
                 _ => rng.usize_below(remaining + 2),
             }
         };
-        match rng.below(12) {
+        match rng.below(15) {
+            12 => {
+                // exactly everything that is left, through take(): the iterator has yielded all its items but has not
+                // been asked beyond them yet; then a terminal (which must see nothing)
+                let g: Vec<T> = enter_call(|| it.by_ref().take(remaining).collect());
+                let e: Vec<T> = model.by_ref().take(remaining).collect();
+                cmp!(format!("by_ref().take({}).collect() (exactly the rest)", remaining), g, e);
+                match rng.below(4) {
+                    0 => {
+                        let (g, e) = (enter_call(|| it.last()), model.last());
+                        cmp!("last()".to_string(), g, e);
+                    }
+                    1 => {
+                        let (g, e) = (enter_call(|| it.max()), model.max());
+                        cmp!("max()".to_string(), g, e);
+                    }
+                    2 => {
+                        let (g, e) = (enter_call(|| it.count()), model.count());
+                        cmp!("count()".to_string(), g, e);
+                    }
+                    _ => {
+                        let (g, e) = (enter_call(|| it.min()), model.min());
+                        cmp!("min()".to_string(), g, e);
+                    }
+                }
+                return Ok(calls);
+            }
+            13 => {
+                let (g, e) = (enter_call(|| it.max()), model.max());
+                cmp!("max()".to_string(), g, e);
+                return Ok(calls);
+            }
+            14 => {
+                let (g, e) = (enter_call(|| it.min()), model.min());
+                cmp!("min()".to_string(), g, e);
+                return Ok(calls);
+            }
             0 | 1 | 2 => {
                 let (g, e) = (enter_call(|| it.next()), model.next());
                 let done = e.is_none();
@@ -828,6 +864,86 @@ where
                 let g: Vec<T> = enter_call(|| it.collect());
                 let e: Vec<T> = model.collect();
                 cmp!("collect()".to_string(), g, e);
+                return Ok(calls);
+            }
+        }
+    }
+    Ok(calls)
+}
+
+/// The same for double-ended iterators: random scripts of next / next_back / nth / nth_back / rev / rfold-based calls
+/// against std's slice iterator. Nothing is demanded after the first None from either end.
+pub fn iter_protocol_de<T, I>(mut it: I, want: &[T], rng: &mut Rng, max_calls: usize) -> Result<u64, String>
+where
+    T: PartialEq + std::fmt::Debug + Clone,
+    I: DoubleEndedIterator<Item = T>,
+{
+    let mut model = want.iter().cloned();
+    let mut log: Vec<String> = Vec::new();
+    let mut calls = 0u64;
+    macro_rules! cmp {
+        ($desc:expr, $got:expr, $exp:expr) => {{
+            let (g, e) = ($got, $exp);
+            calls += 1;
+            log.push($desc);
+            if g != e {
+                let shown: Vec<String> = log.iter().rev().take(12).rev().cloned().collect();
+                return Err(format!("after calls [{}]: got {:?}, want {:?}", shown.join(", "), g, e));
+            }
+        }};
+    }
+    for _ in 0..max_calls {
+        let remaining = model.clone().count();
+        let k = rng.usize_below(remaining + 2).min(rng.usize_below(4));
+        match rng.below(8) {
+            0 | 1 => {
+                let (g, e) = (enter_call(|| it.next()), model.next());
+                let done = e.is_none();
+                cmp!("next()".to_string(), g, e);
+                if done {
+                    return Ok(calls);
+                }
+            }
+            2 | 3 => {
+                let (g, e) = (enter_call(|| it.next_back()), model.next_back());
+                let done = e.is_none();
+                cmp!("next_back()".to_string(), g, e);
+                if done {
+                    return Ok(calls);
+                }
+            }
+            4 => {
+                let (g, e) = (enter_call(|| it.nth_back(k)), model.nth_back(k));
+                let done = e.is_none();
+                cmp!(format!("nth_back({})", k), g, e);
+                if done {
+                    return Ok(calls);
+                }
+            }
+            5 => {
+                let (g, e) = (enter_call(|| it.nth(k)), model.nth(k));
+                let done = e.is_none();
+                cmp!(format!("nth({})", k), g, e);
+                if done {
+                    return Ok(calls);
+                }
+            }
+            6 => {
+                let g: Vec<T> = enter_call(|| it.rev().collect());
+                let e: Vec<T> = model.rev().collect();
+                cmp!("rev().collect()".to_string(), g, e);
+                return Ok(calls);
+            }
+            _ => {
+                let g: Vec<T> = enter_call(|| it.rfold(Vec::new(), |mut acc, x| {
+                    acc.push(x);
+                    acc
+                }));
+                let e: Vec<T> = model.rfold(Vec::new(), |mut acc, x| {
+                    acc.push(x);
+                    acc
+                });
+                cmp!("rfold(push)".to_string(), g, e);
                 return Ok(calls);
             }
         }
